@@ -31,18 +31,19 @@ Fixpoint least_from (P : Z -> bool) (k0 : Z) (fuel : nat) : option Z :=
   | S f => if P k0 then Some k0 else least_from P (k0 + 1) f
   end.
 
-Definition search_bound (v : Z) : nat := Z.to_nat (Z.log2 (Z.abs v) / 8 + 3).
+Definition search_bound (v : Z) : nat := Z.to_nat (Z.log2 (Z.abs v) / 7 + 3).
 
-(** number of octets of the shortest unsigned representation (at least one) *)
-Definition x_ulen (v : Z) : option Z := least_from (fun k => v <? 256 ^ k) 1 (search_bound v).
+(** number of base-[b] digits of the shortest unsigned representation (at least one) *)
+Definition x_len (b : Z) (v : Z) : option Z := least_from (fun k => v <? b ^ k) 1 (search_bound v).
+Definition x_ulen (v : Z) : option Z := x_len 256 v.
 (** number of octets of the shortest two's-complement representation *)
 Definition x_slen (v : Z) : option Z :=
   least_from (fun k => (- 2 ^ (8 * k - 1) <=? v) && (v <? 2 ^ (8 * k - 1))) 1 (search_bound v).
 
-(** [k] octets, most significant first, of v modulo 256^k *)
-Fixpoint x_octets_acc (k : nat) (v : Z) (acc : list Z) : list Z :=
-  match k with O => acc | S k' => x_octets_acc k' (v / 256) (v mod 256 :: acc) end.
-Definition x_octets (k : Z) (v : Z) : list Z := x_octets_acc (Z.to_nat k) v [].
+(** [k] base-[b] digits, most significant first, of v modulo b^k *)
+Fixpoint x_digits_acc (b : Z) (k : nat) (v : Z) (acc : list Z) : list Z :=
+  match k with O => acc | S k' => x_digits_acc b k' (v / b) (v mod b :: acc) end.
+Definition x_octets (k : Z) (v : Z) : list Z := x_digits_acc 256 (Z.to_nat k) v [].
 
 Definition x_length (n : Z) : option (list Z) :=
   if n <? 0 then None
@@ -186,19 +187,27 @@ Definition x_string (k : strkind) (sz : size) (cs : list Z) : option (list Z) :=
   end.
 
 (** ** 23 OBJECT IDENTIFIER: length determinant + the X.690 8.19 contents *)
-Fixpoint x_b128_acc (fuel : nat) (v : Z) (acc : list Z) : list Z :=
-  match fuel with
-  | O => acc
-  | S f => if v =? 0 then acc else x_b128_acc f (v / 128) ((128 + v mod 128) :: acc)
+(** base-128 digits, bit 8 set on all but the last (X.690 8.19.2) *)
+Fixpoint x_cont (ds : list Z) : list Z :=
+  match ds with
+  | [] => []
+  | [d] => [d]
+  | d :: r => (128 + d) :: x_cont r
   end.
-Definition x_subid (v : Z) : list Z :=
-  x_b128_acc (Z.to_nat (Z.log2 v) + 1) (v / 128) [v mod 128].
+Definition x_subid (v : Z) : option (list Z) :=
+  olet k := x_len 128 v in Some (x_cont (x_digits_acc 128 (Z.to_nat k) v [])).
+
+Fixpoint x_subids (vs : list Z) : option (list Z) :=
+  match vs with
+  | [] => Some []
+  | v :: r => olet a := x_subid v in olet b := x_subids r in Some (a ++ b)
+  end.
 
 Definition x_oid (arcs : list Z) : option (list Z) :=
   match arcs with
   | a0 :: a1 :: rest =>
     if forallb (fun a => 0 <=? a) arcs && in_range 0 2 a0 && ((a0 =? 2) || (a1 <? 40))
-    then let c := x_subid (40 * a0 + a1) ++ flat_map x_subid rest in
+    then olet c := x_subids ((40 * a0 + a1) :: rest) in
          olet l := x_length (Z.of_nat (length c)) in Some (l ++ c)
     else None
   | _ => None
@@ -207,8 +216,10 @@ Definition x_oid (arcs : list Z) : option (list Z) :=
 (** ** 8.7 tags (used by CHOICE only) *)
 Definition x_class_bits (c : tclass) : Z :=
   match c with Univ => 0 | Appl => 64 | Ctx => 128 | Priv => 192 end.
-Definition x_tag (c : tclass) (num : Z) : list Z :=
-  if num <? 63 then [x_class_bits c + num] else (x_class_bits c + 63) :: x_subid num.
+Definition x_tag (c : tclass) (num : Z) : option (list Z) :=
+  if num <? 0 then None
+  else if num <? 63 then Some [x_class_bits c + num]
+  else olet ds := x_subid num in Some ((x_class_bits c + 63) :: ds).
 
 Definition x_open (o : list Z) : option (list Z) :=
   olet l := x_length (Z.of_nat (length o)) in Some (l ++ o).
@@ -308,8 +319,8 @@ Section Spec.
     let extl := match ext with Some x => x | None => [] end in
     let automatic := negb (existsb (fun m => x_alt_tagged (m_ty m)) (root ++ extl)) in
     let tag_of i (m : member_of ty) :=
-        if automatic then Some (x_tag Ctx i)
-        else match m_ty m with TTag tg _ => Some (x_tag (t_class tg) (t_num tg)) | _ => None end in
+        if automatic then x_tag Ctx i
+        else match m_ty m with TTag tg _ => x_tag (t_class tg) (t_num tg) | _ => None end in
     match x_find_alt n 0 root with
     | Some (i, m) => olet tg := tag_of i m in olet o := rec (m_ty m) v in Some (tg ++ o)
     | None =>
